@@ -384,16 +384,106 @@ class OpqGen(TopGen):
         return "*map[string]" + g, "R M P " + p, p, "ptrmap"
 
 
+BODY_PRIMS = ["i8", "i8", "i16", "i32", "i64", "i0", "u8", "u8", "u16", "u0", "f32", "f64", "b", "s", "s", "s", "t", "d"]
+PARAM_TAGS = ["query", "path", "header", "cookie"]
+
+
+class BodyGen(TopGen):
+    """body-shaped types: fields the request body fills (`json:"b3" xml:"b3"`, no source tag) next to fields
+    that one of query / path / header / cookie fills (`json:"-" xml:"-"`, most with a default). The Ty term
+    does not mention json / xml tags: decoding a body is the standard library's business (shipped per case)."""
+
+    def body_leaf(self):
+        r = self.r
+        p = r.pick(BODY_PRIMS)
+        k = r.n(100)
+        if k < 56:
+            return GO[p], "P " + p
+        if k < 72:
+            return "*" + GO[p], "R P " + p
+        if k < 88:
+            return "[]" + GO[p], "L P " + p
+        return "map[string]" + GO[p], "M P " + p
+
+    def raw_field(self, name, gotype, tagtext):
+        return "\t%s %s `%s`" % (name, gotype, tagtext) if name else "\t%s `%s`" % (gotype, tagtext) if tagtext else "\t%s" % gotype
+
+    def gen_struct(self, depth):
+        r = self.r
+        lines, terms = [], []
+        nf = r.rng(3, 7) if depth == 0 else r.rng(1, 3)
+        for j in range(nf):
+            i = self.new_field_id()
+            k = r.n(100)
+            if depth < 2 and k < 16:
+                self.sid += 1
+                mysid = self.sid
+                sl, st = self.gen_struct(depth + 1)
+                tname = "T%dS%d" % (self.k, mysid)
+                self.decls.append("type %s struct {\n%s\n}\n" % (tname, "\n".join(sl)))
+                isptr = r.chance(2, 5)
+                gotype = ("*" if isptr else "") + tname
+                ty = ("R " if isptr else "") + st
+                if k < 6:
+                    lines.append("\t%s" % gotype)                       # embedded: json promotes its fields
+                    terms.append(self.field_term(tname, True, True, {}, "", ty))
+                else:
+                    name = "N%d" % i
+                    lines.append(self.raw_field(name, gotype, 'json:"n%d" xml:"n%d"' % (i, i)))
+                    terms.append(self.field_term(name, True, False, {}, "", ty))
+                continue
+            if depth == 0 and (k < 46 or j == 0):
+                # a parameter field
+                p = r.pick(PRIM_W)
+                kk = r.n(100)
+                if kk < 70:
+                    gotype, ty, kind = GO[p], "P " + p, "prim"
+                elif kk < 85:
+                    gotype, ty, kind = "*" + GO[p], "R P " + p, "ptr"
+                else:
+                    gotype, ty, kind = "[]" + GO[p], "L P " + p, "slice"
+                t = r.pick(PARAM_TAGS)
+                tv = {t: self.key_style(i)}
+                dflt = ""
+                if kind in ("prim", "ptr") and r.chance(2, 3):
+                    dflt = ReqGen.nonzero_default(self, p)
+                name = "F%d" % i
+                tagtext = '%s:"%s" json:"-" xml:"-"' % (t, tv[t]) + (' default:"%s"' % dflt if dflt else "")
+                lines.append(self.raw_field(name, gotype, tagtext))
+                terms.append(self.field_term(name, True, False, tv, dflt, ty))
+                continue
+            gotype, ty = self.body_leaf()
+            name = "B%d" % i
+            opt = ",omitempty" if r.chance(1, 5) else ""
+            xmlt = 'xml:"b%d"' % i if not gotype.startswith("map") else 'xml:"-"'
+            lines.append(self.raw_field(name, gotype, 'json:"b%d%s" %s' % (i, opt, xmlt)))
+            terms.append(self.field_term(name, True, False, {}, "", ty))
+        return lines, "T %d %s" % (len(terms), " ".join(terms))
+
+
+def body_closures(k):
+    return ("\t\tJSON: func(b []byte, o ...binding.Option) (any, error) { return binding.JSON[T%d](b, o...) },\n"
+            "\t\tJSONReader: func(r io.Reader, o ...binding.Option) (any, error) { return binding.JSONReader[T%d](r, o...) },\n"
+            "\t\tXML: func(b []byte, o ...binding.Option) (any, error) { return binding.XML[T%d](b, o...) },\n"
+            "\t\tXMLReader: func(r io.Reader, o ...binding.Option) (any, error) { return binding.XMLReader[T%d](r, o...) },\n"
+            "\t\tJSONWith: func(b *binding.Binder, d []byte) (any, error) { return binding.JSONWith[T%d](b, d) },\n"
+            "\t\tJSONReaderWith: func(b *binding.Binder, r io.Reader) (any, error) { return binding.JSONReaderWith[T%d](b, r) },\n"
+            "\t\tXMLWith: func(b *binding.Binder, d []byte) (any, error) { return binding.XMLWith[T%d](b, d) },\n"
+            "\t\tXMLReaderWith: func(b *binding.Binder, r io.Reader) (any, error) { return binding.XMLReaderWith[T%d](b, r) },\n"
+            % ((k,) * 8))
+
+
 def main():
     n = int(sys.argv[1]) if len(sys.argv) > 1 else 400
     nreq = int(sys.argv[2]) if len(sys.argv) > 2 else 80
     nnamed = int(sys.argv[3]) if len(sys.argv) > 3 else 60
     nopq = int(sys.argv[4]) if len(sys.argv) > 4 else 60
+    nbody = int(sys.argv[5]) if len(sys.argv) > 5 else 40
     r = Rng(20260926)
     out = []
-    out.append("// Code generated by gen_types.py %d %d %d %d; DO NOT EDIT.\n" % (n, nreq, nnamed, nopq))
+    out.append("// Code generated by gen_types.py %d %d %d %d %d; DO NOT EDIT.\n" % (n, nreq, nnamed, nopq, nbody))
     out.append("package main\n")
-    out.append('import (\n\t"net"\n\t"net/http"\n\t"net/url"\n\t"regexp"\n\t"time"\n\n\t"rivaas.dev/binding"\n)\n')
+    out.append('import (\n\t"io"\n\t"net"\n\t"net/http"\n\t"net/url"\n\t"regexp"\n\t"time"\n\n\t"rivaas.dev/binding"\n)\n')
     out.append("var _ = time.Second\n")
     entries = []
     for k in range(n):
@@ -433,6 +523,15 @@ def main():
         out.append("type T%d struct {\n%s\n}\n" % (k, "\n".join(lines)))
         entries.append((k, term))
     out.append("var _ = net.IP(nil)\nvar _ *regexp.Regexp\n")
+    # body-shaped types, fifth stream
+    r5 = Rng(20260930)
+    bbase = base + nopq
+    for k in range(bbase, bbase + nbody):
+        g = BodyGen(r5, k)
+        lines, term = g.gen_struct(0)
+        out.extend(g.decls)
+        out.append("type T%d struct {\n%s\n}\n" % (k, "\n".join(lines)))
+        entries.append((k, term))
     out.append("var corpus = []typeEntry{")
     for k, term in entries:
         out.append("\t{Name: \"T%d\", New: func() any { return new(T%d) },\n"
@@ -448,8 +547,9 @@ def main():
                    "\t\tHeaderWith: func(b *binding.Binder, v http.Header) (any, error) { return binding.HeaderWith[T%d](b, v) },\n"
                    "\t\tCookieWith: func(b *binding.Binder, v []*http.Cookie) (any, error) { return binding.CookieWith[T%d](b, v) },\n"
                    "\t\tBindWith: func(b *binding.Binder, o ...binding.Option) (any, error) { return binding.BindWith[T%d](b, o...) },\n"
+                   "%s"
                    "\t\tTy: %s},"
-                   % ((k,) * 14 + ('"' + term + '"',)))
+                   % ((k,) * 14 + (body_closures(k) if k >= bbase else "", '"' + term + '"',)))
     out.append("}\n")
     sys.stdout.write("\n".join(out))
 
